@@ -176,7 +176,7 @@ def check(ctx):
         r0 = cell_role(s0.place)
         if r0 and s0.place.local in entry_locals:
             direct.add(r0)
-    have_roles = sorted(set(cells.values()) | direct) if not cells else sorted(cells.values())
+    have_roles = sorted(set(cells.values()) | direct)     # several reference locals may name the same cell (re-destructured entry)
     if not cells and entry_locals:
         have_roles = ["current", "prev", "window"] if len(CELLS["names"]) == 3 else have_roles
     ctx.check(have_roles == ["current", "prev", "window"], "C13/key-isolation", "C13/key-isolation/cells", site(b, ob),
